@@ -1,11 +1,12 @@
 """C15 (part) - structural necessary conditions of 'area, exchanger-count and capital-cost targets follow their definitions':
 every table column the area path reads has been written on every option path that reaches it (COLDEF); the log-mean temperature difference
 refuses non-positive end differences before the logarithm (LMTD-GUARD); the cost and exchanger helpers keep no module-level state and
-any stored result is keyed by every argument (PURE, MEMO-KEY); record divisions are guarded (DIV-GUARD)."""
+any stored result is keyed by every argument (PURE, MEMO-KEY); record divisions are guarded (DIV-GUARD); the stream's resistance x CP product, which the
+area target sums per interval, is never left computed from a CP that the same method rewrites afterwards (DERIVED-SEQ)."""
 from ..core.model import Program
 from ..core.report import CheckContext
 from ..core.resolve import Resolver
-from ..rules import coldef, dispatch, effect, order
+from ..rules import coldef, derived, dispatch, effect, order
 from .common import run_control, generic_rules, anchor_funcs
 
 
@@ -17,6 +18,9 @@ def analyse(ctx: CheckContext, p: Program):
     ctx.guard(dispatch.check_lmtd_guard, ctx, p, r)
     ctx.guard(coldef.check_column_definitions, ctx, p, r)
     ctx.guard(order.check_division_guards, ctx, p, r, funcs)
+    st = p.find_class("Stream")
+    if st is not None:
+        ctx.guard(derived.check_stale_order, ctx, r, st)
 
 
 def run(ctx: CheckContext):
@@ -28,6 +32,9 @@ def run(ctx: CheckContext):
         "decides structural necessary conditions only: equal enthalpy spans of the balanced curves, the interval sum of duty x resistance / LMTD, plateau handling, "
         "the cost law N(a + b(A/N)^c) and the capital-recovery factor are arithmetic and NOT decided",
     ]
+    run_control(ctx, "C15/rcp-before-cp", analyse, p.root, "OpenPinch/classes/stream.py",
+                "            self._CP = value / abs(self._t_supply - self._t_target)\n            self._RCP_prod = self._htr * self._CP",
+                "            self._RCP_prod = self._htr * self._CP\n            self._CP = value / abs(self._t_supply - self._t_target)", "DERIVED-SEQ")
     hx = "OpenPinch/utils/heat_exchanger.py"
     run_control(ctx, "C15/guard-weakened", analyse, p.root, hx,
                 "if delta_T1.round(6).min() <= 0 or delta_T2.round(6).min() <= 0:", "if delta_T1.round(6).min() <= 0:", expect_rule="LMTD-GUARD")
